@@ -53,6 +53,7 @@ class Registry:
         self.classes = {}      # class name -> ClsContract  (names are unique in this code base per use)
         self.recs = {}         # record name -> {key: type}
         self.defs = {}         # spec helper name -> (params, expr string)
+        self.rec_optional = set()
         self.class_ids = {}
 
     def fn(self, key, **kw):
@@ -70,8 +71,12 @@ class Registry:
         self.class_ids[c.name] = len(self.class_ids) + 1
         return c
 
-    def rec(self, name, fields):
+    def rec(self, name, fields, optional=False):
+        """dict used as a record with literal string keys.  optional=True: every key may be absent
+        (option dictionaries such as {'throws': False})"""
         self.recs[name] = dict(fields)
+        if optional:
+            self.rec_optional.add(name)
 
     def define(self, name, params, expr):
         self.defs[name] = (list(params), expr)
